@@ -273,7 +273,7 @@ func (comp) Extra(prop string, tier string, seed int64, scratch string) *core.Ex
 	c := &collector{res: res, seed: seed, tier: tier, perKind: map[string]int{}, phaseSet: map[string]bool{}}
 	_ = logger.SetLogLevel("*:NONE")
 	start := time.Now()
-	rounds, scale, budget := 12, 1, 36*time.Second
+	rounds, scale, budget := 10, 1, 36*time.Second
 	c.watchdog = 25 * time.Second
 	if tier == "thorough" {
 		rounds, scale, budget = 60, 3, 9*time.Minute
